@@ -582,6 +582,18 @@ def _guard_idiom(fn: ast.AST, name: str, use_stmt: ast.stmt, use_node: Optional[
         ffg = facts_for(fi)
         su = ffg.stmt_of(use_stmt) if hasattr(ffg, "stmt_of") else None
         if su is not None:
+            # `g is not None` on an optional carrier (`g = None`, bound in one branch only) is recorded as the condition of the branch
+            # that bound it: the guard holds where those facts hold
+            pc = getattr(ffg, "phi_cond", None) or {}
+            if pc:
+                for g in {n.id for n in ast.walk(fn) if isinstance(n, ast.Name) and isinstance(n.ctx, ast.Store)}:
+                    if g == name:
+                        continue
+                    gv = ffg.at(su.stmt).env.get(g) if hasattr(ffg, "at") else None
+                    for key, cond in pc.items():
+                        if cond and all(f in su.facts for f in cond) and gv is not None and (U(gv) == key or key.startswith("__phi__(" + U(gv))):
+                            guards.append(ast.IfExp(test=ast.Compare(left=ast.Name(id=g, ctx=ast.Load()), ops=[ast.IsNot()], comparators=[ast.Constant(value=None)]),
+                                                    body=ast.Constant(value=None), orelse=ast.Constant(value=None)))
             for op, l, r in su.facts:
                 if op == "isnot" and r == "None":
                     for g in {n.id for n in ast.walk(fn) if isinstance(n, ast.Name) and isinstance(n.ctx, ast.Store)}:
